@@ -76,8 +76,12 @@ def check_instruction(meta, interp, name, root, V, cov):
         solver.add(ctx.side)
         solver.add(res.pc)
         solver.add(pre)
-        cov["queries"] += 1
-        if solver.check() == z3.unsat:
+        if "pre" in sp:
+            cov["queries"] += 1
+            solver.set("timeout", 10000)
+            r0 = solver.check()
+            solver.set("timeout", TMO)
+        if "pre" in sp and r0 == z3.unsat:
             continue  # excluded by the documented precondition (an `unknown` proceeds: every obligation is decided separately)
         assume = list(res.pc) + [pre]
         kind = res.value[0]
@@ -198,6 +202,7 @@ def _worker(args):
     for o in V.obligations:
         o["detail"] = None if o["detail"] is None else str(o["detail"])[:300]
     cov["slow"] = [(name, round(time.time() - t0, 1))] if time.time() - t0 > 30 else []
+    cov["times"] = [(name, round(time.time() - t0, 1))]
     return V.obligations, V.violations, V.known_hit, cov
 
 
@@ -245,6 +250,7 @@ if __name__ == "__main__":
     cov = dict(paths=0, queries=0, solver_time_s=0.0, native_validated=0)
     run(meta, V, cov, only=sys.argv[1:] or None)
     print(V.counts(), cov.get("slow"))
+    print("TIMES", sorted(cov.get("times", []), key=lambda t: -t[1]))
     for o in V.obligations:
         if o["status"] != "discharged":
             print(o["name"], o["status"], (o["detail"] or "")[:200])
